@@ -185,10 +185,33 @@ theorem isAbs_append (b r : Str) (hb : b ≠ []) : isAbs (b ++ r) = isAbs b := b
   | nil => exact absurd rfl hb
   | cons a b => simp [isAbs]
 
+/-- the table of concatPaths in canonical form -/
+def concatSpec (base p : Str) : Str :=
+  if p = [] then base
+  else if p.head? = some '/' then p
+  else if base = [] then p
+  else if base.getLast? = some '/' then base ++ p
+  else base ++ '/' :: p
+
+set_option linter.unusedSimpArgs false in
+/-- the decision list regenerated from path.cc is the canonical table (robust against reordering of
+    independent tests and against equivalent spellings of the tests/results in the source) -/
+theorem concatPaths_eq_spec (base p : Str) : concatPaths base p = concatSpec base p := by
+  have hs := hasSuffix_slash_iff base
+  have hp : ∀ q : Str, hasPrefix q ['/'] = true ↔ q.head? = some '/' := by
+    intro q; cases q with
+    | nil => simp
+    | cons c q => simp [hasPrefix_cons_cons]
+  unfold concatPaths concatSpec
+  simp only [hs, hp]
+  repeat' split
+  all_goals simp_all
+
 /-- what concatenation means: a relative `p` is walked starting from where `b` leads -/
 theorem denote_concat_rel (b p : Str) (hp : isAbs p = false) :
     denote (concatPaths b p) = (comps p).foldl Loc.walk (denote b) := by
-  unfold concatPaths
+  rw [concatPaths_eq_spec]
+  unfold concatSpec
   have hh : ¬ p.head? = some '/' := by simpa [isAbs] using hp
   by_cases h1 : p = []
   · simp [h1]
@@ -201,7 +224,7 @@ theorem denote_concat_rel (b p : Str) (hp : isAbs p = false) :
     · simp only [h1, hh, h3, ↓reduceIte]
       split
       · rename_i hs
-        rw [hasSuffix_iff_isSuffix] at hs
+        rw [← hasSuffix_slash_iff, hasSuffix_iff_isSuffix] at hs
         obtain ⟨x, hx⟩ := hs
         have e1 : b ++ p = x ++ '/' :: p := by rw [← hx]; simp
         have e2 : comps b = comps x := by
@@ -214,7 +237,8 @@ theorem denote_concat_rel (b p : Str) (hp : isAbs p = false) :
         rw [isAbs_append b _ h3, comps_append_slash, List.foldl_append]
 
 theorem denote_concat_abs (b p : Str) (hp : isAbs p = true) : concatPaths b p = p := by
-  unfold concatPaths
+  rw [concatPaths_eq_spec]
+  unfold concatSpec
   have hh : p.head? = some '/' := by simpa [isAbs] using hp
   have h1 : p ≠ [] := by intro h; simp [h] at hh
   simp [h1, hh]
